@@ -627,7 +627,7 @@ VARIANTS = [
 
 META = {
     "design_ref": "DESIGN.md section 3, C08",
-    "technique": "call-graph option plumbing + path-condition must-analysis of every definition-affecting site (bare-name preserve guard)",
+    "technique": "call-graph option plumbing + path-condition must-analysis of every definition-affecting site (bare-name preserve guard); producer census of the spellings a client can use, with the un-mangling pattern read from the source and probed on spelled-out class names (stdlib re)",
     "level_text": ("Decides on the current source that `preserve` is handed down every call chain from the entry points to "
                    "the rules, and that every site at which a rule can delete or rename a definition is reached only under "
                    "a test that the definition's bare name is not in `preserve`. It does not decide that the collection of "
